@@ -4,6 +4,7 @@ Frames of this module are pre-emption points (traced).  Every function has
 the (u, v, w) signature of a scikit-fem bilinear form and is a pure function
 of its arguments.
 """
+import numpy as np
 from skfem.helpers import dot, grad, div, ddot, sym_grad, curl  # noqa
 
 
@@ -99,3 +100,30 @@ def scalar_hdiv_div(u, v, w):
 
 def mixed_stokes(u, p, v, q, w):
     return ddot(sym_grad(u), sym_grad(v)) - div(u) * q - div(v) * p + 1e-2 * p * q
+
+
+# Indexing a DiscreteField (w.x[0], u[0], x, y = w.x) hands the form a private
+# copy, so a form may work on it in place; the arrays shared by all workers
+# must not change under it.
+def inplace_x(u, v, w):
+    x = w.x[0]
+    x -= 0.5
+    x *= x
+    return np.exp(-x) * u * v
+
+
+def inplace_unpack(u, v, w):
+    comps = [c for c in w.x]
+    acc = comps[0]
+    for c in comps[1:]:
+        acc += c
+    acc *= 0.25
+    return (1.0 + acc) * u * v + u * v.grad[0]
+
+
+def inplace_vec(u, v, w):
+    a = u[0]
+    a *= 2.0
+    b = v[0]
+    b += 0.0
+    return a * b + dot(u, v)
